@@ -321,6 +321,34 @@ func runCell(rep *hx.Report, r *rand.Rand, iomod int, emode int, nconn, ntls int
 			results[k] = res{sig, what, specs, id, tr}
 		}(k, specs)
 	}
+	// peers that abort exchanges WHILE the other connections are being served (all framings, HTTP/1.0 and 1.1, status
+	// without a body): a response flush that fails must not disturb the responses in flight on other connections
+	nabort := 6 + r.Intn(8)
+	abortSeed := r.Int63()
+	wg.Add(1)
+	go func() {
+		defer wg.Done()
+		ar := rand.New(rand.NewSource(abortSeed))
+		for k := 0; k < nabort; k++ {
+			a, tr := addr, transport{}
+			if ar.Intn(3) == 0 {
+				a, tr = addrTLS, transport{TLS: true, Ver: []string{"1.2", "1.3"}[ar.Intn(2)]}
+			}
+			ac, _, _ := tr.dial(a, 0)
+			if ac == nil {
+				continue
+			}
+			spec := reqSpec{I: 0, N: []int{0, 10, 100, 5000}[ar.Intn(4)], M: []string{"cl", "multi", "one"}[ar.Intn(3)], Minor: ar.Intn(2), D: 5 + ar.Intn(30)}
+			ac.Write(render(900+k, spec))
+			time.Sleep(time.Duration(1+ar.Intn(6)) * time.Millisecond)
+			if tc, ok := ac.(*net.TCPConn); ok && ar.Intn(2) == 0 {
+				tc.SetLinger(0) // reset instead of an orderly close
+			}
+			ac.Close()
+			time.Sleep(time.Duration(ar.Intn(8)) * time.Millisecond)
+		}
+	}()
+	rep.Stat("aborted-exchanges-under-load")
 	// net/http clients in parallel on the same server
 	var httpErr, httpsErr atomic.Value
 	tr, trTLS := &http.Transport{MaxIdleConnsPerHost: 4}, tlsTransport()
